@@ -27,7 +27,7 @@ RULE = (
     '(filter/slice/split/extend) executed while the source was in displacement representation; distinct = the '
     'operation sequence (names + arguments).'
 )
-RULE += ' Added in rounds 8-10: filter arguments with repeated names; restart chunks repeating the last frame; derived quantities re-queried after extend(); shape analysis (with supercell) and the pair RDF among the read-only queries.'
+RULE += ' Added in rounds 8-10: filter arguments with repeated names; restart chunks repeating the last frame; derived quantities re-queried after extend(); shape analysis (with supercell) and the pair RDF among the read-only queries. Round 13: extend() with a run sampled at another time step (x2, x0.5, x1.001, x10) must be refused and leave the object unchanged.'
 ASSUMPTIONS = [
     'constant-cell trajectories only',
     'split without equal_parts is taken to tile the source without gaps; at most one trailing frame may stay unused (the implementation drops the last frame)',
@@ -295,6 +295,25 @@ def run_unit(unit, rng, ctx):
                     other_meta = dict(live.meta) if rng.integers(2) else {'temperature': 9999.0, 'aux': 'restart'}  # the appended run may carry other metadata; the trajectory it is appended to keeps its own
                     other = Live(gen.make_trajectory(m, list(o.species), Pn + rng.integers(-1, 2, size=(1, Pn.shape[1], 3)), time_step=dt, metadata=other_meta), wrap01(Pn), live.names, m, dt, other_meta, f'restart chunk of {nf_} frames')
                     ctx.count('extend_with_a_chunk_repeating_the_last_frame')
+                if rng.uniform() < 0.15:
+                    # a run sampled at ANOTHER time step cannot become frames of this trajectory (one time step per
+                    # trajectory): the request is refused loudly and the object is left as it was (the probe after this
+                    # step compares it with its unchanged frames); appending silently is a violation
+                    f_dt = float(rng.choice([2.0, 0.5, 1.001, 10.0]))
+                    alien = gen.make_trajectory(m, list(o.species), other.P[: max(1, min(3, len(other.P)))].copy(), time_step=dt * f_dt, metadata=dict(other.meta))
+                    n_before = len(o)
+                    try:
+                        o.extend(alien)
+                        refused = False
+                    except Exception:  # noqa: BLE001
+                        refused = True
+                    ctx.check(refused and len(o) == n_before and o.time_step == dt, f'after {hist}: extend() of "{live.origin}" (time step {dt!r}) with a run sampled at {dt * f_dt!r} s was not refused: the object now has {len(o)} frames (before {n_before}) and time step {o.time_step!r}', {'history': hist})
+                    ctx.count('extend_with_another_time_step_refused', refused)
+                    if not refused:
+                        ok = False
+                        break
+                    hist.append(f'{live.origin}: extend(<run with time step x{f_dt}>) refused')
+                    continue
                 requery = bool(rng.integers(2))
                 if requery:
                     # derived quantities are asked before the object grows ...
